@@ -1,3 +1,4 @@
+From Coq Require Import NArith List.
 (* ParamTypes.v — types of the parameters that harness/srcparams.py reads from the current source. *)
 Inductive cmp := CmpGe | CmpGt | CmpUnknown.              (* count <op> max_parallel  => skip *)
 Inductive missing_mode := MContinue | MReturn | MUnknownMode.   (* remove_results on a task without a result *)
@@ -13,3 +14,12 @@ Record params := {
 Inductive deser_mode := DRecursive | DShallow | DUnknown.
 (* tasks._task__setstate__: re-creates context/result_meta and re-runs post_init (SSReinit) or not (SSPlain) *)
 Inductive setstate_mode := SSReinit | SSPlain | SSUnknown.
+
+(* storage.validate_file_path_key / LocalStorage guards *)
+Record storage_guards := {
+  g_empty : bool;         (* "if not key: raise" present *)
+  g_chars : list N;       (* disallowed_key_chars (single characters, code points) *)
+  g_key_parent : bool;    (* key_path.parent != storage_path.resolve() -> raise *)
+  g_file_parent : bool;   (* file_path.parent != key_path -> raise *)
+  g_delete_validates : bool;   (* LocalStorage.delete goes through _key_to_path *)
+}.
